@@ -285,8 +285,25 @@ func LoadMined() {
 		}
 		Mined.Strings = append(Mined.Strings, s)
 	}
-	if len(Mined.Strings) > 60 {
-		Mined.Strings = Mined.Strings[:60]
+	// the same tokens in other letter cases (a comparison that folds case
+	// treats them like the constant, the wire and the accessors must not)
+	seenS := map[string]bool{}
+	for _, s := range Mined.Strings {
+		seenS[s] = true
+	}
+	for _, s := range append([]string{}, Mined.Strings...) {
+		if len(s) < 2 || len(s) > 12 {
+			continue
+		}
+		for _, v := range []string{strings.ToLower(s), strings.ToUpper(s), strings.ToUpper(s[:1]) + strings.ToLower(s[1:])} {
+			if !seenS[v] {
+				seenS[v] = true
+				Mined.Strings = append(Mined.Strings, v)
+			}
+		}
+	}
+	if len(Mined.Strings) > 150 {
+		Mined.Strings = Mined.Strings[:150]
 	}
 	if len(Mined.Lens) > 90 {
 		Mined.Lens = Mined.Lens[:90]
